@@ -14,7 +14,6 @@ import (
 
 func init() { register("C20", "other", c20) }
 
-
 type c20Merger struct {
 	tag  int64
 	mws  []string // names of the functions that produced the middlewares
